@@ -119,20 +119,30 @@ Proof.
   destruct (Z.leb_spec (go_len s) n) as [Hle|Hgt]; [split; reflexivity|].
   cbn [Z.eqb Pos.eqb nth_error Z.to_nat Pos.to_nat Pos.iter_op Nat.add st_as_bool_v go_bind negb].
   unfold st_small in Hs.
+  (* from here on the cases are split on the MODEL's side (is the flag set? is n above 3?); the source's own tests,
+     whatever their shape, are then decided by lia (st_decide_ifs) *)
+  assert (Hfin : forall (n1 : Z) (e1 : bool) (k : bstr -> option value),
+             (n1 <= n)%Z -> (-4611686018427387904 <= n1)%Z ->
+             (forall o, k o = Some (VStr (o ++ (if e1 then dots else [])))) ->
+             match src_soyhtml_directiveTruncate_loop1 (Z.to_nat (go_wrap_s 64 (n1 + 2))) value s n1 with
+             | None => None
+             | Some (go_ret r) => Some r
+             | Some (go_exit m) => go_bind (go_slice s 0%Z m) k
+             end =
+             match bind (back_to_rune_start (length s) s n1) (fun m => Ok (take (Z.to_nat m) s ++ (if e1 then dots else []))) with
+             | Ok r => Some (VStr r)
+             | _ => None
+             end).
+  { intros n1 e1 k Hn1 Hlo1 Hk. rewrite (trunc_tail_matches s n1 k Hb Hs) by lia.
+    destruct (back_to_rune_start (length s) s n1); cbn [bind]; try reflexivity. apply Hk. }
+  assert (Hdots : forall o : bstr, o ++ [] = o) by (intros; apply app_nil_r).
   split.
-  - destruct (Z.gtb_spec n 3) as [H3|H3]; cbn [bind].
-    + rewrite (st_wrap64 (n - 3)) by lia.
-      rewrite (trunc_tail_matches s (n - 3) _ Hb Hs) by lia.
-      destruct (back_to_rune_start (length s) s (n - 3)); reflexivity.
-    + rewrite (trunc_tail_matches s n _ Hb Hs) by lia.
-      destruct (back_to_rune_start (length s) s n); cbn [bind]; try reflexivity. now rewrite app_nil_r.
-  - destruct e.
-    + destruct (Z.gtb_spec n 3) as [H3|H3]; cbn [bind].
-      * rewrite (st_wrap64 (n - 3)) by lia.
-        rewrite (trunc_tail_matches s (n - 3) _ Hb Hs) by lia.
-        destruct (back_to_rune_start (length s) s (n - 3)); reflexivity.
-      * rewrite (trunc_tail_matches s n _ Hb Hs) by lia.
-        destruct (back_to_rune_start (length s) s n); cbn [bind]; try reflexivity. now rewrite app_nil_r.
-    + cbn [bind]. rewrite (trunc_tail_matches s n _ Hb Hs) by lia.
-      destruct (back_to_rune_start (length s) s n); cbn [bind]; try reflexivity. now rewrite app_nil_r.
+  - destruct (Z_lt_dec 3 n) as [H3|H3]; st_decide_ifs; cbv iota.
+    + rewrite (st_wrap64 (n - 3)) by lia. apply (Hfin (n - 3)%Z true); [lia|lia|reflexivity].
+    + apply (Hfin n false); [lia|lia|]. intros o. now rewrite Hdots.
+  - destruct e; cbv iota.
+    + destruct (Z_lt_dec 3 n) as [H3|H3]; st_decide_ifs; cbv iota.
+      * rewrite (st_wrap64 (n - 3)) by lia. apply (Hfin (n - 3)%Z true); [lia|lia|reflexivity].
+      * apply (Hfin n false); [lia|lia|]. intros o. now rewrite Hdots.
+    + st_decide_ifs; cbv iota. apply (Hfin n false); [lia|lia|]. intros o. now rewrite Hdots.
 Qed.
